@@ -1,8 +1,9 @@
 #!/bin/sh
-# tools/runall.sh [tier] — runs every check once, prints "<ID> exit=<rc> wall=<s>" (for silence checks on the unchanged tree)
+# tools/runall.sh [tier] — runs every check once (or those in $IDS), prints "<ID> exit=<rc> wall=<s>" (silence checks on the unchanged tree)
 cd "$(dirname "$0")/.."
 T=${1:-quick}
-for id in C01 C02 C03 C04 C05 C06 C07 C08 C09 C10 C11 C12 C13 C14 C15 C16 C17 C18 C19 C20; do
+IDS="${IDS:-C01 C02 C03 C04 C05 C06 C07 C08 C09 C10 C11 C12 C13 C14 C15 C16 C17 C18 C19 C20}"
+for id in $IDS; do
   s=$(date +%s); ./check $id --tier $T > .build/runall.$id.log 2>&1; rc=$?; e=$(date +%s)
   echo "$id exit=$rc wall=$((e-s))s $(grep -c '^KNOWN-FINDING' .build/runall.$id.log) known-lines $(grep -E '^(VIOLATION|INCONCLUSIVE)' .build/runall.$id.log | head -2 | cut -c1-150)"
 done
